@@ -62,6 +62,9 @@ class DefUse:
                 self._add(n.target, n.iter, "elem", None)
             elif isinstance(n, ast.NamedExpr):
                 self._add(n.target, n.value, "assign", None)
+            elif isinstance(n, ast.Call) and isinstance(n.func, ast.Attribute) and isinstance(n.func.value, ast.Name) \
+                    and n.func.attr in ("append", "add", "extend", "insert", "update") and n.args:
+                self.defs.setdefault(n.func.value.id, []).append((n.args[-1], "elem-add", None))
             elif isinstance(n, ast.ExceptHandler) and n.name:
                 self.defs.setdefault(n.name, []).append((ast.Constant(value=None), "except", None))
 
